@@ -121,3 +121,17 @@ Proof.
   intros rq Hv Hnd p q Hp Hq Hne.
   apply (round_inv rq [] []); auto; try (intros; contradiction).
 Qed.
+
+(* The request that takes effect first on the empty table is granted. *)
+Lemma round_first : forall r tl, rs r < re r ->
+  exists rest, round [] (r :: tl) = (r, true) :: rest.
+Proof.
+  intros r tl Hr. cbn [round].
+  destruct (step [] (req_op r)) as [l1 x] eqn:Es.
+  unfold req_op in Es. cbn [step step_base] in Es.
+  assert (Ht : test [] (mkLock (rs r) (re r) (rown r) (ty_of (rex r))) = None).
+  { apply (test_none_bytes [] (mkLock (rs r) (re r) (rown r) (ty_of (rex r))) eq_refl Hr).
+    intros o b k _ _ Hk. cbn in Hk. discriminate. }
+  rewrite Ht, (set_no_panic [] (mkLock (rs r) (re r) (rown r) (ty_of (rex r))) eq_refl Hr) in Es.
+  inversion Es; subst. eexists. reflexivity.
+Qed.
